@@ -22,8 +22,8 @@ func keyHas(subs ...string) func(string) bool {
 }
 
 func init() {
-	prop("C01", []string{"FILTERED", "MGETSORT", "NOROWDROP", "GETNIL", "BYTESFRESH", "DISPATCH", "TWINPRIM", "PRIMWIRE", "OPMAPS", "ASTIMMUT", "ROWINDEX", "EVALBOTH", "STICKYFLAG", "REORDERGUARD", "FOLDKIND", "FOLDERR", "FOLDFLAGS", "ROWCARRY", "OP2TABLE", "PARSEARGS", "IFACEEQ", "ROWALIAS", "ARGFRESH", "ATOMALG", "RANGEALG", "PREFIXALG", "SCANALG", "SHORTBATCH", "REGIONSTICKY"},
-		"Structural necessary conditions of C01, for every access path and both iteration modes: FILTERED (a pair leaves a scan only under the true result of the full filter applied to that same pair), NOROWDROP (no loop over a fetched batch drops already-consumed rows), MGETSORT (point reads are returned in sorted key order), GETNIL (a stored pair with an empty value is a pair), BYTESFRESH (evaluation never appends into memory it did not allocate, so stored values come back unmodified), DISPATCH/TWINPRIM/PRIMWIRE/OPMAPS (each operator the user writes is routed, in both modes, to the Go primitive the documentation names, with the same operator literal and operand order; conversion/string functions reach their documented primitives), ASTIMMUT (evaluation does not mutate the expression tree, so repetitions agree). ROWINDEX/ROWCARRY (a vector operator reads row-dependent operands per row, never from a fixed row of the chunk nor from a value computed for an earlier row and carried along), EVALBOTH (vector operators evaluate both operands), STICKYFLAG with FOLDKIND/FOLDERR/FOLDFLAGS/REORDERGUARD (the predicate that is executed is the predicate that was written: the rewriter's structural side conditions, shared with C04). OP2TABLE(query) (the text that is lexed is the text the caller wrote: literals are not rewritten before parsing). PARSEARGS (numbers are read from text with base 10 / 64 bits everywhere), IFACEEQ (no type-strict interface equality or interface-keyed maps in evaluation code), ROWALIAS (no rewritten object shared by all rows of a chunk), ARGFRESH (function bodies do not write into their inputs). ATOMALG/RANGEALG/PREFIXALG/SCANALG(sound) (the access path chosen for the WHERE clause covers every pair that satisfies it), SHORTBATCH (no scan ends its stream early with an empty batch). REGIONSTICKY(only-at-end, reset) (a scan marks itself finished only where its cursor or region ended, so no later call is cut short).",
+	prop("C01", []string{"FILTERED", "MGETSORT", "NOROWDROP", "GETNIL", "BYTESFRESH", "DISPATCH", "TWINPRIM", "PRIMWIRE", "OPMAPS", "ASTIMMUT", "ROWINDEX", "EVALBOTH", "STICKYFLAG", "REORDERGUARD", "FOLDKIND", "FOLDERR", "FOLDFLAGS", "ROWCARRY", "OP2TABLE", "PARSEARGS", "IFACEEQ", "ROWALIAS", "ARGFRESH", "ATOMALG", "RANGEALG", "PREFIXALG", "SCANALG", "SHORTBATCH", "REGIONSTICKY", "FOLDRET"},
+		"Structural necessary conditions of C01, for every access path and both iteration modes: FILTERED (a pair leaves a scan only under the true result of the full filter applied to that same pair), NOROWDROP (no loop over a fetched batch drops already-consumed rows), MGETSORT (point reads are returned in sorted key order), GETNIL (a stored pair with an empty value is a pair), BYTESFRESH (evaluation never appends into memory it did not allocate, so stored values come back unmodified), DISPATCH/TWINPRIM/PRIMWIRE/OPMAPS (each operator the user writes is routed, in both modes, to the Go primitive the documentation names, with the same operator literal and operand order; conversion/string functions reach their documented primitives), ASTIMMUT (evaluation does not mutate the expression tree, so repetitions agree). ROWINDEX/ROWCARRY (a vector operator reads row-dependent operands per row, never from a fixed row of the chunk nor from a value computed for an earlier row and carried along), EVALBOTH (vector operators evaluate both operands), STICKYFLAG with FOLDKIND/FOLDERR/FOLDFLAGS/REORDERGUARD (the predicate that is executed is the predicate that was written: the rewriter's structural side conditions, shared with C04). OP2TABLE(query) (the text that is lexed is the text the caller wrote: literals are not rewritten before parsing). PARSEARGS (numbers are read from text with base 10 / 64 bits everywhere), IFACEEQ (no type-strict interface equality or interface-keyed maps in evaluation code), ROWALIAS (no rewritten object shared by all rows of a chunk), ARGFRESH (function bodies do not write into their inputs). ATOMALG/RANGEALG/PREFIXALG/SCANALG(sound) (the access path chosen for the WHERE clause covers every pair that satisfies it), SHORTBATCH (no scan ends its stream early with an empty batch). REGIONSTICKY(only-at-end, reset) (a scan marks itself finished only where its cursor or region ended, so no later call is cut short). FOLDRET (the folder's `is a literal` flags are constants tied to freshly built literal nodes).",
 		"The end-to-end row set needs evaluation of predicates on values; duplicates from repeated/overlapping IN literals and literal-on-the-left comparisons are not structurally decidable (DESIGN.md §6).")
 	propTable["C01"].KeyFilter["REGIONSTICKY"] = keyHas("|only-at-end", "|reset", "|fetch", "|loop")
 	propTable["C01"].KeyFilter["ATOMALG"] = keyHas("|sound", "|interpretable", "|closed")
@@ -48,8 +48,8 @@ func init() {
 		"Equality of computed values and the refill arithmetic beyond these clauses need execution.")
 	propTable["C03"].KeyFilter["REGIONSTICKY"] = keyHas("|only-at-end", "|reset", "|fetch", "|loop")
 
-	prop("C04", []string{"FOLDKIND", "FOLDERR", "REORDERGUARD", "FOLDFLAGS", "BODYKIND", "STICKYFLAG", "ASTIMMUT", "ARGFRESH", "PARSEARGS", "ARMTWIN"},
-		"Structural necessary conditions of C04: FOLDKIND (a folded literal node has the kind of the value it was folded from and is built from the typed value, not from text), FOLDERR (folding happens only when evaluation succeeded), REORDERGUARD (re-association only for + and * chains with the same operator inside and outside), BODYKIND (folded function calls box the kind their registry row declares). STICKYFLAG (a call is folded only if every argument is a literal). ASTIMMUT (a folded constant node is not used as mutable scratch space by the evaluator). ARGFRESH/PARSEARGS (a folded constant is not modified by the functions applied to it; literals are parsed with 64 bits). ARMTWIN (a folded text constant is a string where the unfolded value was []byte: both arms of every text conversion behave alike).",
+	prop("C04", []string{"FOLDKIND", "FOLDERR", "REORDERGUARD", "FOLDFLAGS", "BODYKIND", "STICKYFLAG", "ASTIMMUT", "ARGFRESH", "PARSEARGS", "ARMTWIN", "FOLDRET"},
+		"Structural necessary conditions of C04: FOLDKIND (a folded literal node has the kind of the value it was folded from and is built from the typed value, not from text), FOLDERR (folding happens only when evaluation succeeded), REORDERGUARD (re-association only for + and * chains with the same operator inside and outside), BODYKIND (folded function calls box the kind their registry row declares). STICKYFLAG (a call is folded only if every argument is a literal). ASTIMMUT (a folded constant node is not used as mutable scratch space by the evaluator). ARGFRESH/PARSEARGS (a folded constant is not modified by the functions applied to it; literals are parsed with 64 bits). ARMTWIN (a folded text constant is a string where the unfolded value was []byte: both arms of every text conversion behave alike). FOLDRET (the folder's `is a literal` flags are constants tied to freshly built literal nodes).",
 		"Numeric equality of folded and unfolded evaluation and the truth table of the Boolean simplifier need evaluation (DESIGN.md §6).")
 
 	propTable["C04"].KeyFilter["STICKYFLAG"] = keyHas("ExpressionOptimizer")
@@ -80,8 +80,8 @@ func init() {
 	propTable["C09"].KeyFilter["PRIMWIRE"] = keyHas("aggr")
 	propTable["C09"].KeyFilter["ROWCACHE"] = keyHas("AggregatePlan")
 
-	prop("C10", []string{"LISTCOVER", "BODYKIND", "PRIMWIRE", "ARITY", "ASTIMMUT", "TWINPRIM", "ERRALL", "ROWINDEX", "FOLDKIND", "FOLDERR", "FOLDFLAGS", "STICKYFLAG", "ROWCARRY", "PARSEARGS", "IFACEEQ", "ROWALIAS", "ARGFRESH", "ARMTWIN"},
-		"Structural necessary conditions of C10: PRIMWIRE (each documented function is registered under its name and both bodies reach the documented primitive on the text argument, base 10, with the length check for distances; no two names share a body except the documented aliases), BODYKIND (bodies return their declared kinds, identically in both modes), LISTCOVER (every list consumer handles every list representation, in both modes), ARITY, ASTIMMUT (constant arguments behave like row-dependent ones: no state is kept in the tree), TWINPRIM (row and vector bodies reach the same primitives). ROWINDEX/ROWCARRY (vector bodies read row-dependent arguments per row), FOLDKIND/FOLDERR/FOLDFLAGS/STICKYFLAG(call folding) (a call with constant arguments is folded only when all arguments are literals, evaluation succeeded, and to a literal of the returned kind, so constants and row-dependent arguments agree). PARSEARGS, IFACEEQ, ROWALIAS, ARGFRESH (bodies read numbers uniformly, compare numerically, build one fresh result per row and never write into their arguments). ARMTWIN (conversions treat string and []byte text alike).",
+	prop("C10", []string{"LISTCOVER", "BODYKIND", "PRIMWIRE", "ARITY", "ASTIMMUT", "TWINPRIM", "ERRALL", "ROWINDEX", "FOLDKIND", "FOLDERR", "FOLDFLAGS", "STICKYFLAG", "ROWCARRY", "PARSEARGS", "IFACEEQ", "ROWALIAS", "ARGFRESH", "ARMTWIN", "FOLDRET"},
+		"Structural necessary conditions of C10: PRIMWIRE (each documented function is registered under its name and both bodies reach the documented primitive on the text argument, base 10, with the length check for distances; no two names share a body except the documented aliases), BODYKIND (bodies return their declared kinds, identically in both modes), LISTCOVER (every list consumer handles every list representation, in both modes), ARITY, ASTIMMUT (constant arguments behave like row-dependent ones: no state is kept in the tree), TWINPRIM (row and vector bodies reach the same primitives). ROWINDEX/ROWCARRY (vector bodies read row-dependent arguments per row), FOLDKIND/FOLDERR/FOLDFLAGS/STICKYFLAG(call folding) (a call with constant arguments is folded only when all arguments are literals, evaluation succeeded, and to a literal of the returned kind, so constants and row-dependent arguments agree). PARSEARGS, IFACEEQ, ROWALIAS, ARGFRESH (bodies read numbers uniformly, compare numerically, build one fresh result per row and never write into their arguments). ARMTWIN (conversions treat string and []byte text alike). FOLDRET (the folder's `is a literal` flags are constants tied to freshly built literal nodes).",
 		"The computed values themselves need execution.")
 
 	propTable["C10"].KeyFilter["STICKYFLAG"] = keyHas("ExpressionOptimizer")
